@@ -102,6 +102,27 @@ def check(run):
         pts, q, kinds = place_charges(rng, specs, 2 if (quick and heavy) else rng.randint(1, 5))
         one_case(run, specs, pts, q, kinds)
         run.count("swap" if la < lb else "noswap")
+    # Boys-argument ladder: charges placed so that p*|P-C|^2 of the first primitive pair takes prescribed values
+    # (including the neighbourhoods of the usual switch points of Boys-function implementations)
+    ladder = [0.0, 1e-6, 0.3, 3.0, 9.0, 15.0, 20.0, 24.0, 26.0, 28.0, 31.0, 36.0, 45.0, 60.0, 90.0, 130.0, 250.0, 1e3, 1e4, 3e4]
+    k = 0
+    for la, lb in itertools.product(range(6), repeat=2):
+        if quick and (la + lb) % 2 == 1 and la + lb < 9:
+            continue
+        kw = dict(nprim=1, nseg=1) if la + lb >= 7 else dict(nprim=rng.randint(1, 2), nseg=1)
+        specs = pair_specs(rng, la, lb, exp_lo=0.3, exp_hi=3.0, **kw)
+        ea, eb = specs[0].exps[0], specs[1].exps[0]
+        P = (ea * np.array(specs[0].center) + eb * np.array(specs[1].center)) / (ea + eb)
+        ts = ladder if not quick else [ladder[(k * 4 + j * 5 + 7) % len(ladder)] for j in range(4)] + [26.0, 28.0][: 1 + (la + lb >= 8)]
+        pts = []
+        for T in ts:
+            d = np.array([rng.gauss(0, 1) for _ in range(3)])
+            d = d / np.linalg.norm(d) * np.sqrt(T / (ea + eb))
+            pts.append(P + d)
+        q = np.array([core.snap(rng.choice([-1, 1]) * rng.uniform(0.5, 3), 8) for _ in ts])
+        one_case(run, specs, np.array(pts), q, tuple("T=%g" % T for T in ts))
+        run.count("boys ladder case")
+        k += 1
     for _ in range(6 if quick else 60):
         n = rng.randint(1, 4)
         specs = random_basis(rng, n, n, lmax=3 if quick else (5 if n <= 2 else 3))
